@@ -1042,6 +1042,14 @@ void Handler::readArgumentFile( const string& pathFilename, bool reportMissing)
       return;
    } // end if
 
+   // an argument file may name another argument file: limit the depth, a file
+   // that (directly or indirectly) names itself would never end otherwise
+   constexpr int  max_arg_file_nesting = 10;
+   if (mArgFileNesting >= max_arg_file_nesting)
+      throw runtime_error( "argument files nested too deeply, file '"
+         + pathFilename + "'");
+
+   const common::ScopedValue< int>     nesting( mArgFileNesting, mArgFileNesting + 1);
    const common::ScopedFlag< uint8_t>  sf( mReadMode, ReadMode::file);
 
    // now read the lines with arguments and process them
